@@ -50,6 +50,12 @@ HEAD_TARGETS = [
 SPLIT_TARGETS = [
     ("callout", "modules/pel/peltool/src.py", "Callout", "__init__", "stream"),
 ]
+# a method made of a straight reading part, one `while` loop, and statements that no longer mention the stream: the straight part
+# and the loop condition are emitted (the loop body constructs objects whose constructors call further constructors: not translated)
+WALK_TARGETS = [
+    ("callouts", "modules/pel/peltool/src.py", "SRC", "getCallouts", "self.stream"),
+    ("tracebuf", "modules/io_drawer/trace.py", "TraceBuffer", "read", "stream"),
+]
 # classes whose translated constructors may be called as  v = <Class>(stream)
 CALLEES = {"FRUIdentity": "fru", "PCEIdentity": "pce", "MRU": "mru"}
 LOOPS = [
@@ -132,8 +138,8 @@ class Tr:
             return "(XV %s)" % T(v)
         if isinstance(e, ast.Attribute) and ast.unparse(e) in self.consts:
             return "(XC %d)" % self.consts[ast.unparse(e)]
-        if isinstance(e, ast.BinOp) and isinstance(e.op, (ast.Add, ast.Sub, ast.Mod, ast.BitAnd)):
-            k = {ast.Add: "XAdd", ast.Sub: "XSub", ast.Mod: "XMod", ast.BitAnd: "XAnd"}[type(e.op)]
+        if isinstance(e, ast.BinOp) and isinstance(e.op, (ast.Add, ast.Sub, ast.Mult, ast.Mod, ast.BitAnd)):
+            k = {ast.Add: "XAdd", ast.Sub: "XSub", ast.Mult: "XMul", ast.Mod: "XMod", ast.BitAnd: "XAnd"}[type(e.op)]
             return "(%s %s %s)" % (k, self.ex(e.left), self.ex(e.right))
         raise Unsupported("expression outside the fragment: %s" % ast.unparse(e))
 
@@ -464,6 +470,37 @@ def main():
             ok = False
             lines.append("(* STUB: %s *)" % str(e).replace("*)", "* )").replace("(*", "( *")[:300])
             lines.append("Definition prog_%s : st := TUnknown.\n" % label)
+    for label, rel, cls, fn, stream in WALK_TARGETS:
+        try:
+            tree = ast.parse(open(os.path.join(ROOT, rel)).read())
+            f, consts = find(tree, cls, fn)
+            body = [b for b in f.body if not (isinstance(b, ast.Expr) and isinstance(b.value, ast.Constant))]
+            tr = Tr(consts, stream)
+            tr.is_tojson = tr.in_loop = True
+            tr.records, tr.peek_ok = module_facts(tree)
+            loops = [i for i, b in enumerate(body) if isinstance(b, (ast.While, ast.For)) and any(tr.is_stream(n) for n in ast.walk(b))]
+            if len(loops) != 1 or not isinstance(body[loops[0]], ast.While) or body[loops[0]].orelse:
+                raise Unsupported("%s.%s does not read its stream in exactly one while loop" % (cls, fn))
+            if any(tr.is_stream(n) for b in body[loops[0] + 1:] for n in ast.walk(b)):
+                raise Unsupported("%s.%s mentions its stream after the loop" % (cls, fn))
+            head = tr.block(body[:loops[0]])
+            guard = tr.cond(body[loops[0]].test)
+            for u in tr.unknown:
+                sys.stderr.write("extract_readers: %s.%s: %s\n" % (cls, fn, u))
+                lines.append("(* outside the fragment: %s *)" % u.replace("*)", "* )").replace("(*", "( *")[:200])
+            lines.append("Definition prog_%s_head : st :=\n  %s.\n" % (label, head))
+            lines.append("Definition guard_%s : cd := %s.\n" % (label, guard))
+            lines.append("Definition loop_%s : list (list N) := [%s].\n" % (label, "; ".join(T(ast.unparse(b)) for b in body[loops[0]].body)))
+            lines.append("Definition around_%s : list (list N) * list (list N) := ([%s], [%s]).\n" % (
+                label, "; ".join(T(ast.unparse(b)) for b in body[:loops[0]]), "; ".join(T(ast.unparse(b)) for b in body[loops[0] + 1:])))
+        except Exception as e:  # noqa: BLE001
+            sys.stderr.write("extract_readers: %s: %s\n" % (label, e))
+            ok = False
+            lines.append("(* STUB: %s *)" % str(e).replace("*)", "* )").replace("(*", "( *")[:300])
+            lines.append("Definition prog_%s_head : st := TUnknown." % label)
+            lines.append("Definition guard_%s : cd := CTruthy (XC 0)." % label)
+            lines.append("Definition loop_%s : list (list N) := []." % label)
+            lines.append("Definition around_%s : list (list N) * list (list N) := ([], []).\n" % label)
     for label, rel, cls, fn, stream in SPLIT_TARGETS:
         try:
             tree = ast.parse(open(os.path.join(ROOT, rel)).read())
